@@ -1,5 +1,6 @@
 import Setec.Driver.DBDrv
 import Setec.Model.Store
+import Setec.Model.CacheDoc
 import Setec.Generated.Facts
 /- Driver for the `store` trace family (C10, C11, C13, C19, sequential part of C16/C12). -/
 namespace Setec.Driver
@@ -144,6 +145,26 @@ def storeLine (st : StoreRun) (lineNo : Nat) (line : String) : Except String (St
   | "tick" :: _ => .ok (st, [])
   | "svcset" :: _ => .ok (st, [])
   | "svcdel" :: _ => .ok (st, [])
+  | "cachedoc" :: rest =>
+    -- one document handed to Cache.Write: its bytes against the model's rendering of its contents
+    let fs := fields rest
+    let get := fun k => (lookup fs k).getD ""
+    let tag := s!"hist={st.hist} line={lineNo}"
+    let canon := get "canon"
+    if canon == "BAD" || canon == "EMPTY" then .ok (st, []) else
+    match parseDoc canon, (unhex (get "raw")).bind (fun b => String.fromUTF8? (ByteArray.mk b.toArray)) with
+    | some d, some raw =>
+      -- Go writes a nil byte slice as null; the model does not distinguish nil from empty
+      let rawN := (raw.replace "\"Value\":null" "\"Value\":\"\"").toList
+      let outs :=
+        (if (CacheDoc.readDoc rawN).map (·.toList) == some d.toList then [] else
+          [s!"PROPFAIL C13 cache_reads_back {tag} the written document does not read back in the documented layout raw={(get "raw").take 400}",
+           s!"PROPFAIL C18 cache_reads_back {tag}"]) ++
+        (if CacheDoc.renderDoc d == rawN then [] else
+          [s!"DIVERGE cache_bytes {tag} code={(get "raw").take 300} model={(hexStr (String.ofList (CacheDoc.renderDoc d))).take 300}"])
+      let nf := (outs.filter (·.startsWith "PROPFAIL")).length
+      .ok ({ st with fails := st.fails + nf, diverges := st.diverges + (outs.length - nf) }, outs)
+    | _, _ => .ok (st, [s!"PROPFAIL C13 cache_reads_back {tag} written cache bytes are not UTF-8 text or not the documented shape raw={(get "raw").take 200}"])
   | "new" :: rest =>
     let fs := fields rest
     let get := fun k => (lookup fs k).getD ""
